@@ -382,3 +382,104 @@ func failedAssertIsZero(c *Ctx, rule string, pkgs ...string) {
 	}
 	c.R.Note(rule+"/examined", "-", sprintf("%d comparisons of an asserted value with nil examined", n))
 }
+
+// errorTestedBeforeValue: after a (value, error) call, a nil test of the value must not give up before the error was looked at:
+// `if v == nil { return … }` standing before `if err != nil` drops the error of a callee that answered (nil, err).
+func errorTestedBeforeValue(c *Ctx, rule string, gen bool, pkgs ...string) {
+	c.R.Rule(rule, "where the value half of a (value, error) call is compared with nil before the error half has been tested, the edge on which the value is nil does not reach a return without looking at the error", 1)
+	n := 0
+	for _, fn := range c.scopeFuncs(pkgs, gen) {
+		for _, b := range fn.Blocks {
+			if len(b.Instrs) == 0 {
+				continue
+			}
+			ifi, ok := b.Instrs[len(b.Instrs)-1].(*ssa.If)
+			if !ok {
+				continue
+			}
+			bo, ok := ifi.Cond.(*ssa.BinOp)
+			if !ok || (bo.Op != token.EQL && bo.Op != token.NEQ) {
+				continue
+			}
+			var x ssa.Value
+			if an.IsNilConst(bo.Y) {
+				x = bo.X
+			} else if an.IsNilConst(bo.X) {
+				x = bo.Y
+			} else {
+				continue
+			}
+			ex, ok := an.Strip(x).(*ssa.Extract)
+			if !ok || ex.Index != 0 {
+				continue
+			}
+			call, ok := ex.Tuple.(*ssa.Call)
+			if !ok {
+				continue
+			}
+			res := call.Call.Signature().Results()
+			if res.Len() != 2 || !an.IsErrorType(res.At(1).Type()) {
+				continue
+			}
+			var errV ssa.Value
+			for _, r := range an.Referrers(call) {
+				if e2, ok := r.(*ssa.Extract); ok && e2.Index == 1 {
+					errV = e2
+				}
+			}
+			if errV == nil {
+				continue
+			}
+			n++
+			// has the error been tested on a dominating edge?
+			tested := false
+			for _, f := range an.Facts(ifi) {
+				if _, k := an.EmptinessFact(f, func(v ssa.Value) bool { return an.Strip(v) == errV }); k {
+					tested = true
+				}
+			}
+			key := c.fnKey(fn) + "/value-nil-test-of-" + lastSeg(an.CalleeOf(call).FullName())
+			if tested {
+				c.R.OK(key, c.ipos(ifi), "the error was tested first")
+				continue
+			}
+			nilSucc := b.Succs[0]
+			if bo.Op == token.NEQ {
+				nilSucc = b.Succs[1]
+			}
+			// from the nil edge: a return reached without any use of the error
+			var bad ssa.Instruction
+			seen := map[*ssa.BasicBlock]bool{}
+			var walk func(bb *ssa.BasicBlock)
+			walk = func(bb *ssa.BasicBlock) {
+				if seen[bb] || bad != nil {
+					return
+				}
+				seen[bb] = true
+				for _, in := range bb.Instrs {
+					for _, op := range in.Operands(nil) {
+						if op != nil && *op != nil && an.Strip(*op) == errV {
+							return // the error is looked at on this path
+						}
+					}
+					if r, ok := in.(*ssa.Return); ok {
+						bad = r
+						return
+					}
+				}
+				for _, s := range bb.Succs {
+					walk(s)
+				}
+			}
+			walk(nilSucc)
+			if bad != nil {
+				c.R.Bad(key, c.ipos(ifi), "the value is tested for nil before the error, and the nil edge returns without ever looking at the error: a callee that answers (nil, err) has its error swallowed")
+			} else {
+				c.R.OK(key, c.ipos(ifi), "the nil edge still looks at the error")
+			}
+		}
+	}
+	if n == 0 {
+		c.R.Fail("%s: no nil test of a (value, error) result found", rule)
+	}
+}
